@@ -577,6 +577,17 @@ def run_fasta(rec, tier, seed):
                             g2, dup2 = df_to_hits(d2, names) if st == "ok" else (None, 0)
                             if g2 is None or set(g2) != set(got):
                                 rec.violation("fimo:custom_alphabet_differs", case, observed=d2 if st != "ok" else len(g2))
+                        # call history: after the DNA alphabet, the same file under an alphabet that LACKS one of its letters
+                        # (A, C, G, U): every T in the file is now an unknown character and contributes 0
+                        if not rc and thr == 0.3:
+                            codes_u = [numpy.where(c == 3, -1, c) for c in codes_list]
+                            ref_u, und_u = ref_hits(codes_u, motifs, 1e-4, 0.1, thr, False)
+                            st, du = call(fimo, md, fa, threshold=thr, reverse_complement=False, alphabet=["A", "C", "G", "U"])
+                            gu, dupu = df_to_hits(du, names) if st == "ok" else (None, 0)
+                            rec.case(1, 1)
+                            if gu is None or (set(gu) - und_u) != (set(ref_u) - und_u):
+                                rec.violation("fimo:alphabet_of_an_earlier_call_still_applies", dict(case, alphabet="ACGU"), expected=len(ref_u),
+                                              observed=du if st != "ok" else len(gu))
                         rec.observe(fi, mi, thr, rc, sorted(ref)[:5])
         rec.sample(dict(kind="fasta", files=FASTA_SETS))
     finally:
